@@ -118,12 +118,68 @@ fn degree_case(tape: &[u8], rec: &Rec) -> Verdict {
     Ok(())
 }
 
-pub fn replay(_ctx: &Ctx, check: &str, tape: &[u8]) -> Verdict {
+/// The real time box: a definition whose value propagation needs more than the 10 s box
+/// (a chain of ~2000 dependent assignments), run through the real release binary. The run must
+/// end normally (exit 0/1 with its summary line), and the debug log must show that a time box
+/// was actually hit — otherwise the case is counted as not having reached the cut.
+fn timebox_case(ctx: &Ctx, tape: &[u8], rec: &Rec) -> Verdict {
+    use crate::binrun::{self, RunOpts};
+    let mut t = Tape::new(tape);
+    let n = 1800 + t.below(900);
+    let template = t.chance(170);
+    let form = t.below(3);
+    let mut body = String::new();
+    for i in 0..n {
+        match form {
+            0 => body.push_str(&format!("    x = x * 3 + {};\n", i % 7 + 1)),
+            1 => body.push_str(&format!("    x = x + y;\n    y = y * 2 + {};\n", i % 5)),
+            _ => body.push_str(&format!("    x = (x + {}) * (y + 1);\n", i % 3)),
+        }
+    }
+    let src = if template {
+        format!("pragma circom 2.0.0;\ntemplate Big() {{\n    signal input in;\n    signal output out;\n    var x = 1;\n    var y = 2;\n{body}    out <== in * x + y;\n}}\n")
+    } else {
+        format!("pragma circom 2.0.0;\nfunction big(a) {{\n    var x = 1;\n    var y = 2;\n{body}    return x + y + a;\n}}\n")
+    };
+    let dir = ctx.scratch.join(format!("c20t-{:?}", std::thread::current().id()).replace(['(', ')'], ""));
+    let _ = std::fs::create_dir_all(&dir);
+    let path = dir.join("big.circom");
+    std::fs::write(&path, &src).map_err(|e| Bad::new(format!("INFRA write: {e}")))?;
+    let mut opts = RunOpts::files(&[&path]).verbose().level("info");
+    opts.cpu_secs = 300;
+    opts.rust_log = Some("circomspect_program_structure=debug".into());
+    let out = binrun::run(&ctx.repo_bin, &opts).map_err(|e| Bad::new(format!("INFRA {e}")))?;
+    let _ = std::fs::remove_dir_all(&dir);
+    rec.class("time_box_runs");
+    let hit = out.stderr.contains("within allotted time") || out.stdout.contains("within allotted time");
+    if hit {
+        rec.class("time_box_runs_in_which_a_box_was_hit");
+        rec.nontrivial(fnv(src.as_bytes()));
+    }
+    rec.sample(|| json!({"kind": "time box", "statements": n, "form": form, "template": template, "time_box_hit": hit, "exit": out.status}));
+    if let Err((why, sig)) = super::c01::judge(&out, opts.cpu_secs) {
+        if sig == "C01:resource-limit" {
+            // slower than 300 CPU-seconds: inconclusive, not a verdict on the property
+            rec.class("time_box_runs_over_cpu_budget_inconclusive");
+            return Ok(());
+        }
+        let panic_line = out.stderr.lines().find(|l| l.contains("panicked at")).unwrap_or("").to_string();
+        return Err(Bad::new(format!(
+            "a definition with {n} chained assignments (time box hit: {hit}): the tool does not complete normally: {why} {panic_line}"
+        ))
+        .sig(format!("C20:abnormal-end-at-time-box:{sig}"))
+        .rendered(format!("{} statements of form {form} in a {}\n{}", n, if template { "template" } else { "function" }, &src[..src.len().min(600)])));
+    }
+    Ok(())
+}
+
+pub fn replay(ctx: &Ctx, check: &str, tape: &[u8]) -> Verdict {
     let stats = Stats::new();
     let rec = Rec::new(&stats, false);
     match check {
         "value_cuts" => value_case(tape, &rec),
         "degree_cuts" => degree_case(tape, &rec),
+        "time_box" => timebox_case(ctx, tape, &rec),
         _ => Err(Bad::new(format!("unknown check {check}"))),
     }
 }
@@ -137,13 +193,15 @@ pub fn run(ctx: &Ctx) -> i32 {
     outcome.absorb(&known, fails);
     let fails = run_tapes_opts(ctx, "degree_cuts", ctx.tier.pick(12_000, 120_000), 4000, 300, &stats, degree_case);
     outcome.absorb(&known, fails);
+    let fails = run_tapes_opts(ctx, "time_box", ctx.tier.pick(16, 128), 16, 2, &stats, |tape, rec| timebox_case(ctx, tape, rec));
+    outcome.absorb(&known, fails);
     finish(
         ctx,
         &stats,
         &outcome,
         EvidenceSpec {
             level: "fault_enumeration",
-            rule: "the verif hook caps the number of propagation passes per thread (it sits next to the elapsed-time bail-out in both loops). For every generated `sem` definition the number F of passes to the fixpoint is measured, then into_ssa is repeated with the value budget k for every k = 0..min(F,16) (plus 8 sampled k above 16) and, on the C07 generator, with the degree budget k likewise. At every cut: the conversion and all analysis passes must complete without panic, every constant attached so far must satisfy the C06 oracle (8 reference valuations; CS0009 and Num2Bits-size consumers included) and every degree bound attached so far the C07 oracle (2 lines; CS0013 included). Non-trivial = a cut strictly before the fixpoint at which at least one claim was checked against a reference run; distinct by (budget kind, k, source).",
+            rule: "the verif hook caps the number of propagation passes per thread (it sits next to the elapsed-time bail-out in both loops). For every generated `sem` definition the number F of passes to the fixpoint is measured, then into_ssa is repeated with the value budget k for every k = 0..min(F,16) (plus 8 sampled k above 16) and, on the C07 generator, with the degree budget k likewise. A third sub-check runs the real release binary on definitions with 1800-2700 chained assignments, for which value propagation needs more than its real 10 s time box (confirmed per run from the debug log), and requires normal termination. At every cut: the conversion and all analysis passes must complete without panic, every constant attached so far must satisfy the C06 oracle (8 reference valuations; CS0009 and Num2Bits-size consumers included) and every degree bound attached so far the C07 oracle (2 lines; CS0013 included). Non-trivial = a cut strictly before the fixpoint at which at least one claim was checked against a reference run; distinct by (budget kind, k, source).",
             assumptions: vec![
                 "the time box is modelled as a bound on the number of completed passes: the elapsed-time check sits at the end of a pass, so propagation can only stop between passes".into(),
                 "oracles and their assumptions as in C06 / C07".into(),
